@@ -76,26 +76,50 @@ Definition cipher_encrypt (cs : cstate) (data : bytes) : Z * cstate * bytes :=
 Definition cipher_output (cs : cstate) (n : Z) : Z * cstate * bytes :=
   cipher_encrypt cs (zeros (zn n)).
 
-(* cipher allocation + keying as done by srtp_crypto_kernel_alloc_cipher / srtp_cipher_init
-   in the internal-crypto configuration: only ids NULL, ICM_128 and ICM_256 are registered;
-   both ICM ids share one alloc function that decides 128/256 from the key length *)
+(* ---- crypto back end of the build (Constants.v, regenerated from the build's config.h) ----
+   cfg_openssl_c: the OpenSSL cipher types are registered (AES-ICM-192 exists);
+   cfg_gcm_c:     AES-GCM-128/256 exist.  Both are false in the internal-crypto configuration,
+   and every theorem of the development is about that configuration (the flags compute). *)
+Definition is_gcm_alg (a : Z) : bool := (a =? SRTP_AES_GCM_128_c) || (a =? SRTP_AES_GCM_256_c).
+Definition is_icm_id (id : Z) : bool :=
+  (id =? SRTP_AES_ICM_128_c) || (id =? SRTP_AES_ICM_256_c) || (cfg_openssl_c && (id =? SRTP_AES_ICM_192_c)).
+
+(* cipher allocation + keying as done by srtp_crypto_kernel_alloc_cipher / srtp_cipher_init.
+   Internal crypto: only ids NULL, ICM_128 and ICM_256 are registered; the ICM ids share one
+   alloc function that decides the variant from the key length.  OpenSSL: the same, plus
+   ICM_192 (key length 38) and the two GCM ids (key lengths 28 / 44; the tag length argument
+   is checked by alloc_cipher_t in Stream.v). *)
 Definition cipher_alloc_status (id klen : Z) : Z :=
   if id =? SRTP_NULL_CIPHER_c then st_ok
-  else if (id =? SRTP_AES_ICM_128_c) || (id =? SRTP_AES_ICM_256_c) then
+  else if is_icm_id id then
     if (klen =? SRTP_AES_ICM_128_KEY_LEN_WSALT_c) || (klen =? SRTP_AES_ICM_256_KEY_LEN_WSALT_c)
+       || (cfg_openssl_c && (klen =? SRTP_AES_ICM_192_KEY_LEN_WSALT_c))
+    then st_ok else st_bad_param
+  else if cfg_gcm_c && is_gcm_alg id then
+    if (klen =? SRTP_AES_GCM_128_KEY_LEN_WSALT_c) || (klen =? SRTP_AES_GCM_256_KEY_LEN_WSALT_c)
     then st_ok else st_bad_param
   else st_fail.
 
 Definition cipher_alg_of (id klen : Z) : Z :=
   if id =? SRTP_NULL_CIPHER_c then SRTP_NULL_CIPHER_c
-  else if klen =? SRTP_AES_ICM_256_KEY_LEN_WSALT_c then SRTP_AES_ICM_256_c else SRTP_AES_ICM_128_c.
+  else if cfg_gcm_c && is_gcm_alg id then
+    (if klen =? SRTP_AES_GCM_256_KEY_LEN_WSALT_c then SRTP_AES_GCM_256_c else SRTP_AES_GCM_128_c)
+  else if klen =? SRTP_AES_ICM_256_KEY_LEN_WSALT_c then SRTP_AES_ICM_256_c
+  else if cfg_openssl_c && (klen =? SRTP_AES_ICM_192_KEY_LEN_WSALT_c) then SRTP_AES_ICM_192_c
+  else SRTP_AES_ICM_128_c.
 
-(* number of heap blocks a cipher object owns *)
+(* number of heap blocks a cipher object owns (struct + context; OpenSSL's own objects are
+   not obtained through srtp_crypto_alloc) *)
 Definition cipher_blocks (alg : Z) : Z := if alg =? SRTP_NULL_CIPHER_c then 1 else 2.
 
-(* srtp_cipher_init(c, key): the ICM context takes key[0..klen-14) and the 14 salt bytes after it *)
+(* srtp_cipher_init(c, key): the ICM context takes key[0..klen-14) and the 14 salt bytes after it;
+   a GCM context takes key[0..klen-12) (the 12 salt octets are used by srtp.c, not by the cipher) *)
 Definition cipher_key (alg klen : Z) (key : bytes) : ckey :=
   if alg =? SRTP_NULL_CIPHER_c then {| ck_alg := alg; ck_klen := klen; ck_rks := []; ck_salt := [] |}
+  else if is_gcm_alg alg then
+    let base := klen - SRTP_AEAD_SALT_LEN_c in
+    {| ck_alg := alg; ck_klen := klen; ck_rks := aes_key_expand (take (zn base) key);
+       ck_salt := slice (zn base) (zn SRTP_AEAD_SALT_LEN_c) key |}
   else
     let base := klen - SRTP_SALT_LEN_c in
     {| ck_alg := alg; ck_klen := klen; ck_rks := aes_key_expand (take (zn base) key);
